@@ -81,6 +81,66 @@ def _mounted(tasks, mount, name, tasks_list=None, extra_cfg=None):
     return {'name': name, 'tasks': tasks, 'configs': cfgs, 'root': root, 'variants': {'v': []}}
 
 
+def inherited_meta_scenario():
+    """task classes whose inner `Meta` SUBCLASSES the Meta of their (abstract) base: inputs, abstract flag and group declared there are inherited"""
+    import tcv
+    from pathlib import Path
+
+    tcv.quiet_library()
+    from taskchain import Config, Task
+
+    class Src(Task):
+        def run(self) -> int:
+            return 1
+
+    class Base(Task):
+        class Meta:
+            abstract = True
+            input_tasks = [Src]
+            task_group = 'cols'
+
+        def run(self, src) -> int:
+            return src
+
+    class ColA(Base):
+        class Meta(Base.Meta):
+            abstract = False
+
+    class Template(Base):
+        class Meta(Base.Meta):
+            pass    # still abstract: inherits `abstract = True`
+
+    class ColB(Template):
+        class Meta(Template.Meta):
+            abstract = False
+            name = 'col_b'
+
+    out = []
+    root = scratch.fresh('c08m')
+    try:
+        for tasks, want in (([Src, Base, ColA, Template, ColB], ['cols:col_a', 'cols:col_b', 'src']), ([ColB, ColA, Src, Template], ['cols:col_a', 'cols:col_b', 'src'])):
+            ch = Config(Path(root) / 'data', name='m', data={'tasks': tasks}).chain()
+            names = sorted(ch.tasks)
+            if names != want:
+                out.append(('inherited-meta: chain tasks differ from the declared ones', f'{[t.__name__ for t in tasks]}: {names}, expected {want}'))
+                continue
+            for n in ('cols:col_a', 'cols:col_b'):
+                req = sorted(t.fullname for t in ch.required_tasks(n))
+                dep = sorted(t.fullname for t in ch.dependent_tasks('src'))
+                if req != ['src'] or dep != ['cols:col_a', 'cols:col_b'] or not ch.is_task_dependent_on(n, 'src'):
+                    out.append(('inherited-meta: graph edges differ from the declared inputs', f'{n}: required {req}, dependants of src {dep}'))
+        try:
+            Config(Path(root) / 'data', name='m2', data={'tasks': [ColA]}).chain()
+            out.append(('inherited-meta: invalid declaration accepted (missing-input)', 'ColA alone (its inherited input Src is not declared)'))
+        except Exception:  # noqa
+            pass
+    except Exception as e:  # noqa
+        out.append(('inherited-meta: valid declaration rejected', f'{type(e).__name__}: {e}'))
+    finally:
+        scratch.drop(root)
+    return out
+
+
 def special_family():
     out = []
     T = lambda name, group=None, inputs=(), **kw: dict({'name': name, 'group': group, 'params': [], 'inputs': list(inputs), 'data': 'json'}, **kw)  # noqa
@@ -378,6 +438,9 @@ def run(tier, seed):
     res.add('evaluations', 2)
     for kind, msg in check_multichain_name_mode():
         res.violations.append(Violation(f'multichain-name-mode: {kind}', msg, {'multichain': True}))
+    res.add('evaluations', 3)
+    for kind, msg in inherited_meta_scenario():
+        res.violations.append(Violation(kind, msg, {'inherited_meta': True}))
     res.coverage['configurations'] = len(fam)
     res.coverage['states'] = len(fam) * 2
     res.coverage['traces_validated_against_impl'] = res.coverage['evaluations']
@@ -396,6 +459,8 @@ def replay(case):
     import tcv
 
     tcv.quiet_library()
+    if case.get('inherited_meta'):
+        return [Violation(k, m, case) for k, m in inherited_meta_scenario()]
     if case.get('multichain'):
         return [Violation(f'multichain-name-mode: {k}', m, case) for k, m in check_multichain_name_mode()]
     bad = check_world(case['desc'], case['pm']) or []
